@@ -327,6 +327,7 @@ fn cli_sample(rt: &Runtime, rep: &mut StageReport) -> Vec<(serde_json::Value, St
                 None => {}
             }
             std::fs::write(dir.join("good.skf"), &f.bytes).unwrap();
+            std::fs::write(dir.join("good2.skf"), &f.bytes).unwrap();
             cli::write_fasta_auto(&dir.join("ref.fa"), &[crate::gen::filler(63, 1)], None);
             // every third damaged file is read by the multi-threaded invocations
             let th: &[&str] = if attempts % 3 == 0 { &["--threads", "2"] } else if attempts % 3 == 1 { &["--threads", "4"] } else { &[] };
@@ -337,6 +338,8 @@ fn cli_sample(rt: &Runtime, rep: &mut StageReport) -> Vec<(serde_json::Value, St
                 vec!["distance", dname, "-o", "out_dist"],
                 vec!["merge", dname, "good.skf", "-o", "out_m1"],
                 vec!["merge", "good.skf", dname, "-o", "out_m2"],
+                // one damaged file among three inputs, in the middle or at the end
+                if attempts % 2 == 0 { vec!["merge", "good.skf", dname, "good2.skf", "-o", "out_m3"] } else { vec!["merge", "good.skf", "good2.skf", dname, "-o", "out_m3"] },
                 vec!["delete", "-s", dname, "-o", "out_del", "smp0"],
                 vec!["weed", dname, "ref.fa", "-o", "out_weed.skf"],
                 vec!["lo", dname, "out_lo"],
@@ -357,7 +360,7 @@ fn cli_sample(rt: &Runtime, rep: &mut StageReport) -> Vec<(serde_json::Value, St
                     problem = Some("exit status 0".to_string());
                 } else if std::fs::read(&p).ok().as_deref() != Some(&data[..]) {
                     problem = Some("the damaged input file was modified".to_string());
-                } else if let Some(x) = ["out_aln", "out_map", "out_dist", "out_m1.skf", "out_m2.skf", "out_del.skf", "out_weed.skf", "out_lo_snps.fas", "out_lo_indels.vcf"].iter().find(|x| {
+                } else if let Some(x) = ["out_aln", "out_map", "out_dist", "out_m1.skf", "out_m2.skf", "out_m3.skf", "out_del.skf", "out_weed.skf", "out_lo_snps.fas", "out_lo_indels.vcf"].iter().find(|x| {
                     let q = dir.join(x);
                     q.exists() && std::fs::metadata(&q).map(|m| m.len() > 0).unwrap_or(false)
                 }) {
@@ -368,12 +371,12 @@ fn cli_sample(rt: &Runtime, rep: &mut StageReport) -> Vec<(serde_json::Value, St
                         viol.push((json!({"file": f.name, "fault": format!("{fault:?}"), "cmd": cmd}), format!("ska {} on {} damaged by {fault:?}: {pr}", cmd.join(" "), f.name)));
                     }
                 }
-                for x in ["out_aln", "out_map", "out_dist", "out_m1.skf", "out_m2.skf"] {
+                for x in ["out_aln", "out_map", "out_dist", "out_m1.skf", "out_m2.skf", "out_m3.skf"] {
                     let _ = std::fs::remove_file(dir.join(x));
                 }
             }
             rep.nontrivial_keys.insert(key_of(&(f.name, format!("{fault:?}"))));
-            rep.class(&format!("{}:damaged_files_through_9_subcommands", f.name), 1);
+            rep.class(&format!("{}:damaged_files_through_10_subcommands", f.name), 1);
             done += 1;
             ctx.done(&dir);
         }
@@ -391,7 +394,7 @@ fn stages(_tier: Tier) -> Vec<Box<dyn Stage>> {
         ),
         enum_stage(
             "cli",
-            "sample of damaged files that the loader rejects, each (half of them named without the .skf suffix next to an intact <name>.skf that holds a different table) through nk, align, map, distance, merge (as first and as second input), delete, weed, lo (align/map/distance/lo with --threads 2 or 4 for two thirds of the files): non-zero exit, damaged input byte-identical afterwards, no non-empty output file",
+            "sample of damaged files that the loader rejects, each (half of them named without the .skf suffix next to an intact <name>.skf that holds a different table) through nk, align, map, distance, merge (as first and as second input, and as one of three inputs), delete, weed, lo (align/map/distance/lo with --threads 2 or 4 for two thirds of the files): non-zero exit, damaged input byte-identical afterwards, no non-empty output file",
             cli_sample,
         ),
     ]
